@@ -50,7 +50,7 @@ def is_valid_alpine_version(s):
     left, _, _ = s.partition(".")
     # hanlde the suffix case
     left, _, _ = left.partition("-")
-    if not left.isdigit():
+    if not left.isdecimal():
         return True
     i = int(left)
     return str(i) == left
@@ -495,13 +495,13 @@ class LegacyOpensslVersion(Version):
         major, minor, build = segments
         major = int(major)
         minor = int(minor)
-        if build.isdigit():
+        if build.isdecimal():
             build = int(build)
             patch = ""
         else:
             patch = build[1:]
             build = int(build[0])
-            if patch[0].isdigit():
+            if patch[0].isdecimal():
                 return False
         return major, minor, build, patch
 
